@@ -80,9 +80,15 @@ def obs_nom(case):
     from pyubx2 import nomval, val2bytes
 
     t = case["t"]
-    ev = {"kind": "nom", "t": t, "w": 0 if t == "CH" else int(t[1:4]), "out": "", "bytes": []}
+    ev = {"kind": "nom", "t": t, "w": 0 if t == "CH" else int(t[1:4]), "out": "", "bytes": [], "again": []}
     try:
-        ev["bytes"] = list(val2bytes(nomval(t), t))
+        v = nomval(t)
+        ev["bytes"] = list(val2bytes(v, t))
+        # hostile caller: overwrite in place whatever mutable value was handed out, then ask again
+        if isinstance(v, (list, bytearray)):
+            for j in range(len(v)):
+                v[j] = 0xA5
+        ev["again"] = list(val2bytes(nomval(t), t))
         ev["out"] = "ok"
     except Exception as ex:  # noqa: BLE001
         ev["out"] = type(ex).__name__
